@@ -7,13 +7,14 @@ P=$1; K=$2
 SD=/tmp/wt/$P/_seed/$K
 PATCH=${3:-$SD/patch.diff}
 W=/tmp/wt/_confirm_${P}_${K}
-PR=${P%[bcdef]}; KK=$K
+PR=${P%[bcdefg]}; KK=$K
 case "$P" in
   *b) KK=$((K+3));;   # round-2 worktrees /tmp/wt/<Cxx>b -> seeds 4..6 of <Cxx>
   *c) KK=$((K+6));;   # round-3 worktrees /tmp/wt/<Cxx>c -> seeds 7..9
   *d) KK=$((K+9));;   # round-4 worktrees /tmp/wt/<Cxx>d -> seeds 10..12
   *e) KK=$((K+12));;  # round-5 worktrees /tmp/wt/<Cxx>e -> seeds 13..15
   *f) KK=$((K+15));;  # round-6 worktrees /tmp/wt/<Cxx>f -> seeds 16..18
+  *g) KK=$((K+18));;  # round-7 worktrees /tmp/wt/<Cxx>g -> seeds 19..20
 esac
 OUT=/verif/seeded/$PR-$KK
 git -C /repo worktree remove --force $W >/dev/null 2>&1
